@@ -1,0 +1,57 @@
+//go:build verif
+
+// Contracts for the file-system signer, read by /verif/bin/gocv. Comment-only.
+package file
+
+//@ func zeroBytes(b)
+//@   property C19
+//@   nopanic
+//@   modifies b[:]
+//@   ensures [zeroed] forall k :: 0 <= k && k < len(b) ==> b[k] == 0
+//@   loop 1 invariant [zeroed] rangeindex >= -1 && forall k :: 0 <= k && k <= rangeindex && k < len(b) ==> b[k] == 0
+
+//@ func fallbackDeriveKey(passphrase, keyLen) (key)
+//@   property C19
+//@   nopanic
+//@   requires [len] keyLen >= 0 && keyLen < 1048576
+//@   ensures [len] len(key) == keyLen
+//@   loop 1 invariant [idx] len(passphrase) <= i && len(key) == keyLen && i >= 0
+
+//@ func deriveKeyArgon2(passphrase, salt, keyLen) (key)
+//@   property C19
+//@   ensures [kdf] val(key) == KDF(val(passphrase), val(salt)) && len(key) == keyLen
+
+//@ func getAddress(pubKey) (addr, err)
+//@   property C19
+//@   nopanic
+//@   requires [key] pubKey != nil
+//@   ensures [address] err == nil ==> val(addr) == AddrOf(pkraw(pubKey.val)) && len(addr) == 32
+
+//@ func (s *FileSystemSigner) loadKeys(passphrase) (err)
+//@   property C19
+//@   nopanic
+//@   modifies s.privateKey, s.publicKey, passphrase[:]
+//@   ensures [pub-matches-priv] err == nil ==> s.privateKey != nil && s.publicKey != nil && pkraw(s.publicKey.val) == PubOf(skraw(s.privateKey.val))
+//@   ensures [no-usable-signer-on-error] err != nil ==> s.privateKey == old(s.privateKey) && s.publicKey == old(s.publicKey)
+//@   ensures [zeroed] forall k :: 0 <= k && k < len(passphrase) ==> passphrase[k] == 0
+
+//@ func (s *FileSystemSigner) Sign(message) (sig, err)
+//@   property C19
+//@   nopanic
+//@   ensures [signs-with-private-key] err == nil ==> s.privateKey != nil && Signed(PubOf(skraw(s.privateKey.val)), val(message), val(sig))
+
+//@ func (s *FileSystemSigner) GetPublic() (pk, err)
+//@   property C19
+//@   nopanic
+//@   ensures [reports-public-key] err == nil ==> pk == s.publicKey && pk != nil
+
+//@ func (s *FileSystemSigner) GetAddress() (addr, err)
+//@   property C19
+//@   requires [loaded] s.publicKey != nil
+//@   ensures [address-of-reported-key] err == nil ==> val(addr) == AddrOf(pkraw(s.publicKey.val))
+
+//@ func ExportPrivateKey(keyPath, passphrase) (key, err)
+//@   property C19
+//@   nopanic
+//@   modifies passphrase[:]
+//@   ensures [zeroed] forall k :: 0 <= k && k < len(passphrase) ==> passphrase[k] == 0
